@@ -197,6 +197,10 @@ func (it *treeIterator) Seek(key node.Key) {
 	if it.err != nil {
 		return
 	}
+	if len(key) > maxKeySize {
+		it.setError(ErrKeyTooLarge)
+		return
+	}
 
 	it.reset()
 	err := it.doNext(it.tree.cache.pendingRoot, 0, node.Key{}, key, visitBefore)
